@@ -281,12 +281,19 @@ def g6_lazy_empty_rule(ctx) -> None:
     f = m.node
     ctx.analysed(m)
     c = [p for p in D.param_names(f) if p != "self"][0]
-    st = PT.find_all(f, f"self.rules_dict[{c}] = _E_v")
+    st = [(a, {"_E_v": norm(a.value)}) for a in walk_local(f) if isinstance(a, ast.Assign) and any(norm(t) == f"self.rules_dict[{c}]" for t in a.targets)]
     if not st:
         ctx.violation("G6", f, f"get_rule must store the lazily made rule under the class asked for (self.rules_dict[{c}])", construct=f"{SP}.get_rule store")
         return
     node, b = st[0]
     gs = _atoms(C.flatten_guards(C.guards(f, node)))
+    # `try: return self.rules_dict[c]  except KeyError: <make up>` is the same test
+    for t in walk_local(f):
+        if isinstance(t, ast.Try) and len(t.body) == 1 and isinstance(t.body[0], ast.Return) and t.body[0].value is not None \
+                and norm(t.body[0].value) == f"self.rules_dict[{c}]":
+            for h in t.handlers:
+                if h.type is not None and norm(h.type) == "KeyError" and any(node is x for st_ in h.body for x in ast.walk(st_)):
+                    gs = set(gs) | {(f"{c} in self.rules_dict", False)}
     if (f"{c} in self.rules_dict", False) not in gs:
         ctx.violation("G6", node, f"a rule is made up although the class may already have one: the store must be under `{c} not in self.rules_dict`")
     elif (f"{c}.is_empty()", True) in gs:
@@ -311,7 +318,15 @@ def g6_lazy_empty_rule(ctx) -> None:
         else:
             ctx.violation("G6", node, f"the made-up rule must be EmptyStrategy()({c}); found `{v[:80]}`")
     rets = [r for r in C.returns_of(f) if r.value is not None]
-    if rets and all(norm(r.value) == f"self.rules_dict[{c}]" for r in rets):
+    def _is_stored(v: ast.AST) -> bool:
+        if norm(v) == f"self.rules_dict[{c}]":
+            return True
+        if isinstance(v, ast.Name):      # rule = self.rules_dict[c] = <made up>
+            asg = [a for a in walk_local(f) if isinstance(a, ast.Assign) and any(isinstance(t, ast.Name) and t.id == v.id for t in a.targets)]
+            return len(asg) == 1 and any(norm(t) == f"self.rules_dict[{c}]" for t in asg[0].targets) and C.dominates(f, asg[0], v)
+        return False
+
+    if rets and all(_is_stored(r.value) for r in rets):
         ctx.ok("G6", "get_rule returns the rule stored for the class asked for")
     else:
         ctx.violation("G6", f, f"get_rule must return self.rules_dict[{c}]", construct=f"{SP}.get_rule return")
